@@ -146,19 +146,9 @@ func runC05(p *core.Prog, r *core.Report) {
 		return
 	}
 
-	// pool constructor: the function stored into storePool.New (a closure returning *Store)
-	var ctor *ssa.Function
-	for _, fn := range p.PkgFuncs("httpd") {
-		for _, ret := range sx.Returns(fn) {
-			if len(ret.Results) == 1 {
-				if mi, ok := ret.Results[0].(*ssa.MakeInterface); ok {
-					if a, ok := sx.Unspill(mi.X).(*ssa.Alloc); ok && types.Identical(ptrTo(a.Type()), store) {
-						ctor = fn
-					}
-				}
-			}
-		}
-	}
+	// pool constructor: the function stored into storePool.New (a closure returning *Store), or the place where a Store is
+	// allocated when the pool had none
+	ctor := poolCtor(p)
 	if ctor == nil {
 		r.Fail("C05-R2", "pool constructor", "-", "no function returning a fresh *Store as `any` found")
 		return
@@ -462,6 +452,29 @@ func runC05(p *core.Prog, r *core.Report) {
 			}
 		}
 	}
+	// the number formatted into the request ID is the very value the atomic increment returned (an increment whose result
+	// is dropped followed by a separate load lets two requests read the same number)
+	{
+		n := 0
+		sx.Instrs(serve, func(in ssa.Instruction) {
+			c, ok := in.(*ssa.Call)
+			if !ok || !strings.HasPrefix(sx.CalleeName(c), "strconv.Append") || len(c.Call.Args) < 2 {
+				return
+			}
+			if !derivesFromFieldAny(c.Call.Args[0], store) {
+				return
+			}
+			n++
+			org := sx.Origins(c.Call.Args[1])
+			okInc := false
+			for o := range org {
+				if (strings.HasPrefix(o, "call:(*sync/atomic.") && strings.HasSuffix(o, ").Add")) || strings.HasPrefix(o, "call:sync/atomic.Add") {
+					okInc = true
+				}
+			}
+			r.Check(okInc && len(org) == 1, "C05-R5", fmt.Sprintf("request ID #%d is the result of the atomic increment", n), p.Pos(in.Pos()), "formatted from the value returned by the counter's atomic Add", "the number formatted into the request ID comes from "+keys(org)+", not from the result of the atomic increment: concurrent requests can format the same number")
+		})
+	}
 	idf := fieldByName(store, "id")
 	if idf == nil {
 		for _, f := range structFields(store) {
@@ -487,6 +500,16 @@ func runC05(p *core.Prog, r *core.Report) {
 			}
 		}
 	}
+}
+
+// derivesFromFieldAny: v is (an append chain on) the current value of some []byte field of the given struct type.
+func derivesFromFieldAny(v ssa.Value, owner *types.Named) bool {
+	for _, f := range structFields(owner) {
+		if f.Type().String() == "[]byte" && derivesFromField(v, owner.Obj().Name(), f) {
+			return true
+		}
+	}
+	return false
 }
 
 func zeroConst(t types.Type) ssa.Value {
@@ -572,9 +595,23 @@ func c05InitImmutable(p *core.Prog, allFns []*ssa.Function) {
 }
 
 // poolCtor: the function that returns a fresh *Store as `any` (the value of storePool.New).
-func poolCtor(p *core.Prog) *ssa.Function {
+func poolCtor(p *core.Prog) (ctor *ssa.Function) {
 	store := p.Named("httpd", "Store")
-	var ctor *ssa.Function
+	defer func() {
+		if ctor != nil {
+			return
+		}
+		// no separate constructor function: the Store is allocated where it is taken from the pool (`if v == nil { … }`)
+		for _, v := range pkgViews(p, "httpd") {
+			for _, fn := range sx.WithClosures(v.Fn) {
+				sx.Instrs(fn, func(in ssa.Instruction) {
+					if a, ok := in.(*ssa.Alloc); ok && a.Heap && types.Identical(ptrTo(a.Type()), store) {
+						ctor = fn
+					}
+				})
+			}
+		}
+	}()
 	for _, fn := range p.PkgFuncs("httpd") {
 		for _, ret := range sx.Returns(fn) {
 			if len(ret.Results) == 1 {
